@@ -108,6 +108,9 @@ def render(markup: str, style: Union[str, Style] = "", emoji: bool = True) -> Te
     append = text.append
     normalize = Style.normalize
 
+    # The stack holds (index in spans, tag). Every opening tag reserves its entry in spans, so
+    # that spans end up in the order the tags were opened: Text.render gives precedence to
+    # later spans, and a tag opened later must win over one opened earlier.
     style_stack: List[Tuple[int, Tag]] = []
     pop = style_stack.pop
 
@@ -133,30 +136,32 @@ def render(markup: str, style: Union[str, Style] = "", emoji: bool = True) -> Te
                 if style_name:  # explicit close
                     style_name = normalize(style_name)
                     try:
-                        start, open_tag = pop_style(style_name)
+                        index, open_tag = pop_style(style_name)
                     except KeyError:
                         raise MarkupError(
                             f"closing tag '{tag.markup}' at position {position} doesn't match any open tag"
                         ) from None
                 else:  # implicit close
                     try:
-                        start, open_tag = pop()
+                        index, open_tag = pop()
                     except IndexError:
                         raise MarkupError(
                             f"closing tag '[/]' at position {position} has nothing to close"
                         ) from None
 
-                append_span(_Span(start, len(text), str(open_tag)))
+                spans[index] = _Span(spans[index].start, len(text), str(open_tag))
             else:  # Opening tag
                 normalized_tag = _Tag(normalize(tag.name), tag.parameters)
-                style_stack.append((len(text), normalized_tag))
+                style_stack.append((len(spans), normalized_tag))
+                # end is filled in when the tag is closed (or at the end of the markup)
+                append_span(_Span(len(text), len(text), str(normalized_tag)))
 
     text_length = len(text)
     while style_stack:
-        start, tag = style_stack.pop()
-        append_span(_Span(start, text_length, str(tag)))
+        index, tag = style_stack.pop()
+        spans[index] = _Span(spans[index].start, text_length, str(tag))
 
-    text.spans = sorted(spans)
+    text.spans = spans
     return text
 
 
